@@ -5,8 +5,23 @@ from ..project import AnalysisError, loc, norm_stmt
 
 
 def entries(ctx, table):
-    """table: list of (rel, qualname) -> FunctionInfo list (exit 2 if gone)."""
-    return [ctx.p.get_function(rel, q) for rel, q in table]
+    """table: list of (rel, qualname) -> FunctionInfo list.  A missing entry
+    point is reported as a NOTE; if more than a third are gone the table is
+    stale and the run is an ANALYSIS-ERROR."""
+    out = []
+    missing = []
+    for rel, q in table:
+        try:
+            out.append(ctx.p.get_function(rel, q))
+        except AnalysisError as e:
+            missing.append(f"{rel}::{q}")
+    for m in missing:
+        ctx.r.note("U1", m, m, "entry point of the frozen table no longer "
+                   "exists; skipped")
+    if len(missing) * 3 > len(table):
+        raise AnalysisError("entry-point table is stale: missing "
+                            + ", ".join(missing))
+    return out
 
 
 def u1(ctx, entry_table, min_functions=1, extra_note=""):
